@@ -87,3 +87,8 @@ claim("C12", "exploration", "Hypothesis-generated recording histories against Ra
       "Histories with session changes, seed/key pairs, resets, reads/writes/routines and repeated requests are recorded into a real SQLite database through ECU.request; DBUDSServer built from that database must reproduce the reply bytes captured "
       "on the recording wire step by step (silence where nothing was received), selected by ECU name and/or properties among other runs. Exploration over histories and database layouts.",
       "Presupposition of the statement is checked per step (client state == recorded ECU state); suppressed state-changing requests are excluded because the client cannot observe them; unanswered requests in a non-default state are a recorded known finding.")
+claim("C15", "fault_enumeration", "Enumerated grid (thorough) / Hypothesis sample (quick) of exit kind x lifecycle point x resource switches x command kind; the real entry_point() runs in-process; artefacts read back from disk with independent tools",
+      "Tiny AsyncScript / Scanner / UDSScanner subclasses fail as scripted at every lifecycle point with every exit kind, with artifacts dir, database, lock file and hooks each on or off, with failing and missing hooks and an "
+      "unopenable database; the return value, META.json, the compressed log, the lock file, the run_meta row and the hook environments are read back and must be mutually consistent and follow the documented exit-code mapping. "
+      "Fault enumeration: the grid is finite and covered completely in the thorough tier.",
+      "KeyboardInterrupt raised inside the coroutine stands for Ctrl-C; db-close faults are not generated.")
